@@ -123,6 +123,21 @@ pub fn run(ctx: &Ctx) -> Report {
         }
     }
 
+    // ---- forced replay of Props/C39 `same_pool_release_aba_counterexample` (one pool, ABA through a release)
+    {
+        let progs = vec![vec![Op::Alloc(4, 2_500_000)], vec![Op::Alloc(4, 2_000_000), Op::Release(4, 2_000_000), Op::Alloc(4, 2_000_000)]];
+        let sched = [1, 1, 1, 1, 0, 0, 1, 1, 1, 0, 1, 1, 1, 1, 0];
+        let o = run_case(ctx, limit, &progs, Some(&sched), &mut rng, &mut model);
+        let case = format!("forced limit={limit} progs={} sched={:?}", progs_sx(&progs), sched);
+        rep.case(Some(&case));
+        rep.sample(format!("{case} -> results {:?} exceeded {:?}", o.results, o.exceeded));
+        if let Some(d) = &o.disagreement { rep.disagree(case.clone(), d.clone(), "budget-step".into()); }
+        match o.exceeded {
+            Some((u, l)) => rep.oracle_fail(case, format!("total_used {u} > total_limit {l}: compare-exchange succeeded on a pool counter that went away and came back (ABA)"), "budget:limit-exceeded:2t:same-pool-with-release".into()),
+            None => rep.notes.push("the Lean same-pool ABA counterexample schedule did NOT exceed the limit on the real code".into()),
+        }
+    }
+
     // ---- random programs and schedules
     let ncases = if ctx.thorough { 6000 } else { 500 };
     for _ in 0..ncases {
@@ -159,7 +174,8 @@ pub fn run(ctx: &Ctx) -> Report {
         if rep.evaluations % 97 == 0 { rep.sample(format!("{case} -> results {:?}", o.results)); }
         if let Some(d) = o.disagreement { rep.disagree(case.clone(), d, "budget-step".into()); }
         if let Some((u, l)) = o.exceeded {
-            let kind = if o.pools_touched >= 2 { "cross-pool" } else { "same-pool" };
+            let has_release = progs.iter().flatten().any(|o| matches!(o, Op::Release(..)));
+            let kind = if o.pools_touched >= 2 { "cross-pool" } else if has_release { "same-pool-with-release" } else { "same-pool-alloc-only" };
             rep.oracle_fail(case, format!("total_used {u} > total_limit {l}"), format!("budget:limit-exceeded:{nthreads}t:{kind}"));
         }
     }
